@@ -244,6 +244,25 @@ fn scenario(w: &mut World, ctx: &RunCtx, states: &mut Vec<u64>) -> Result<(), Vi
             s.tampered.insert(wid, tag);
             w.count("c02_tampered_injected");
         }
+        // ---- a datagram sealed by an outsider under a key it can guess (all zero / all ones) for any slot
+        if w.ch.chance("forged_with_guessable_key", 250) {
+            counter += 1;
+            let m3 = mesh::marker(w, counter);
+            let (fa, fb) = *w.ch.pick("forge_pair", &connected);
+            let inner = mesh::ipv4_packet(mesh::tun_ip(fa), mesh::tun_ip(fb), &m3);
+            let cipher = w.ch.choose("forge_cipher", 3) as usize;
+            let key_byte = *w.ch.pick("forge_key_byte", &[0u8, 0xff]);
+            let key_id = w.ch.choose("forge_key_id", 4) as u8;
+            let half = *w.ch.pick("forge_half", &[0u8, 0x80]);
+            let ctr = *w.ch.pick("forge_counter", &[1u64, 0x00ff_ffff_ffff_ff00, 0x0000_8000_0000_0000]);
+            let d = super::refmodel::forge_sealed(cipher, key_byte, key_id, half, ctr, 0, &inner);
+            let (src, dst) = (w.nodes[fa].addr, w.nodes[fb].addr);
+            if !plain_pair(w, fa, fb) {
+                let wid = w.inject(src, dst, d, 1, "sealed-with-guessable-key");
+                s.tampered.insert(wid, "sealed-with-guessable-key");
+                w.count("c02_guessable_key_forgeries");
+            }
+        }
         // ---- unsealed payload presented while a handshake with that address is pending
         if w.ch.chance("unsealed_to_pending", 150) {
             counter += 1;
@@ -364,10 +383,10 @@ impl Scenario for C02 {
     }
 
     fn rule(&self) -> &'static str {
-        "2-3 real tun nodes, each with a cipher list from {default, aes128, aes256, chacha20, plain, plain+aes256, chacha20+aes128} (so plain on none / one / both ends occurs), plus a never-answering configured peer at node 0 (handshake pending); 10-60 marked frames per run between connected pairs, the first of length (i mod 301) - every length 0..=300 once per 301 runs - the others up to 9000 bytes; after each frame one sealed datagram on the wire (data or node info) is tampered with: one bit flipped in key id / counter / ciphertext / tag, truncated at any length, reflected to its sender from the peer's address, presented on another connection of a 3-node mesh with a matching source address, or extended; unsealed payload is presented from the address of a pending handshake. Oracles: every interface write is byte-identical to the frame read at the sending peer and comes from an unmodified copy of its datagram; a tampered datagram causes no write, no state change, no reply; two ticks later untouched frames are delivered exactly once on every connection; the complete wire capture of non-plain pairs contains no 16-byte window of payload or of any node id. Non-trivial: at least one tampered datagram was handled."
+        "2-3 real tun nodes, each with a cipher list from {default, aes128, aes256, chacha20, plain, plain+aes256, chacha20+aes128} (so plain on none / one / both ends occurs), plus a never-answering configured peer at node 0 (handshake pending); 10-60 marked frames per run between connected pairs, the first of length (i mod 301) - every length 0..=300 once per 301 runs - the others up to 9000 bytes; after each frame one sealed datagram on the wire (data or node info) is tampered with: one bit flipped in key id / counter / ciphertext / tag, truncated at any length, reflected to its sender from the peer's address, presented on another connection of a 3-node mesh with a matching source address, or extended; unsealed payload is presented from the address of a pending handshake; datagrams sealed by the outsider under guessable keys (all-zero, all-ones) for every cipher, key slot and nonce half are presented from a peer's address. Oracles: every interface write is byte-identical to the frame read at the sending peer and comes from an unmodified copy of its datagram; a tampered datagram causes no write, no state change, no reply; two ticks later untouched frames are delivered exactly once on every connection; the complete wire capture of non-plain pairs contains no 16-byte window of payload or of any node id. Non-trivial: at least one tampered datagram was handled."
     }
 
     fn expected_probes(&self) -> Vec<&'static str> {
-        vec!["c02_flip_key_id", "c02_flip_counter", "c02_flip_ciphertext", "c02_flip_tag", "c02_runs_with_plain_pair", "c02_runs_with_one_sided_plain", "c02_unsealed_to_pending_handshake", "c02_final_probes_checked", "c02_wire_scanned"]
+        vec!["c02_flip_key_id", "c02_flip_counter", "c02_flip_ciphertext", "c02_flip_tag", "c02_runs_with_plain_pair", "c02_runs_with_one_sided_plain", "c02_unsealed_to_pending_handshake", "c02_guessable_key_forgeries", "c02_final_probes_checked", "c02_wire_scanned"]
     }
 }
